@@ -26,8 +26,7 @@ import (
 // into program templates, builds/runs them with the real scriggo and logs what happened:
 //
 //	P0:  package main; const c = <src>; func main() {}          -> builds / build error text
-//	P1:  the same plus println(c == <reflit>), var v <vt> = c; println(v), type switch on c,
-//	     println(((c - c) + 1) / 2 == 0)   (true iff c has an integer kind)
+//	P1:  the same plus println(c == <reflit>), var v <vt> = c; println(v), type switch on c
 //
 // It judges nothing. Printed decimals are re-chunked (digit string -> base 10^4 limbs, no
 // arithmetic) into the BigInt JSON form {"s","l"} used by the specification.
@@ -43,7 +42,6 @@ type c02Case struct {
 	RefLit []int           `json:"reflit"`
 	VT     string          `json:"vt"`
 	DT     int             `json:"dt"`
-	IK     int             `json:"ik"`
 	// Kids are the non-leaf operands of a depth-2 expression, observed as constants of their own.
 	Kids []c02Case `json:"kids"`
 }
@@ -101,9 +99,6 @@ func programs(k *c02Case) (p0, p1 string) {
 	}
 	if k.VT != "" {
 		b.WriteString("\tvar v " + k.VT + " = c\n\tprintln(\"v\", v)\n")
-	}
-	if k.IK == 1 {
-		b.WriteString("\tprintln(\"ik\", ((c - c) + 1) / 2 == 0)\n")
 	}
 	if k.DT == 1 {
 		b.WriteString("\tvar i interface{} = c\n\tswitch i.(type) {\n")
@@ -168,9 +163,9 @@ func observe(k *c02Case, oracle bool) map[string]any {
 	for i := range k.Kids {
 		kids = append(kids, observe(&k.Kids[i], oracle))
 	}
-	o := map[string]any{"id": k.ID, "expr": k.Expr, "src": k.Src, "reflit": k.RefLit, "vt": k.VT, "dt": k.DT, "ik": k.IK,
+	o := map[string]any{"id": k.ID, "expr": k.Expr, "src": k.Src, "reflit": k.RefLit, "vt": k.VT, "dt": k.DT,
 		"builds": "", "msg": []int{}, "chk": "none", "chkmsg": []int{}, "eq": "", "hasv": 0,
-		"v": bigJSON{L: []int{}}, "dtobs": "", "ikobs": "", "kids": kids}
+		"v": bigJSON{L: []int{}}, "dtobs": "", "kids": kids}
 	p0, p1 := programs(k)
 	var lines [][]string
 	if oracle {
@@ -179,7 +174,7 @@ func observe(k *c02Case, oracle bool) map[string]any {
 		if cls != "ok" {
 			return o
 		}
-		if len(k.RefLit) == 0 && k.VT == "" && k.DT != 1 && k.IK != 1 {
+		if len(k.RefLit) == 0 && k.VT == "" && k.DT != 1 {
 			return o
 		}
 		var cls1, msg1 string
@@ -191,7 +186,7 @@ func observe(k *c02Case, oracle bool) map[string]any {
 		if cls != "ok" {
 			return o
 		}
-		if len(k.RefLit) == 0 && k.VT == "" && k.DT != 1 && k.IK != 1 {
+		if len(k.RefLit) == 0 && k.VT == "" && k.DT != 1 {
 			return o
 		}
 		p, cls1, msg1 := build(p1)
@@ -222,8 +217,6 @@ func observe(k *c02Case, oracle bool) map[string]any {
 			}
 		case "dt":
 			o["dtobs"] = f[1]
-		case "ik":
-			o["ikobs"] = f[1]
 		}
 	}
 	return o
@@ -271,12 +264,6 @@ func oracleRun(p1 string, k *c02Case) (lines [][]string, class, msg string) {
 				if tv, ok := info.Types[be]; ok && tv.Value != nil {
 					lines = append(lines, []string{"eq", tv.Value.String()})
 				}
-			} else if _, ok := be.X.(*ast.BinaryExpr); ok {
-				if lit, ok := be.Y.(*ast.BasicLit); ok && lit.Value == "0" && k.IK == 1 {
-					if tv, ok := info.Types[be]; ok && tv.Value != nil {
-						lines = append(lines, []string{"ik", tv.Value.String()})
-					}
-				}
 			}
 		}
 		return true
@@ -310,8 +297,8 @@ func main() {
 			defer func() {
 				if r := recover(); r != nil {
 					out = []any{map[string]any{"id": k.ID, "expr": k.Expr, "src": k.Src, "reflit": k.RefLit, "vt": k.VT,
-						"dt": k.DT, "ik": k.IK, "builds": "hostpanic", "msg": drv.IntsS(fmt.Sprint(r)), "chk": "none", "chkmsg": []int{},
-						"eq": "", "hasv": 0, "v": bigJSON{L: []int{}}, "dtobs": "", "ikobs": "", "kids": []any{}}}
+						"dt": k.DT, "builds": "hostpanic", "msg": drv.IntsS(fmt.Sprint(r)), "chk": "none", "chkmsg": []int{},
+						"eq": "", "hasv": 0, "v": bigJSON{L: []int{}}, "dtobs": "", "kids": []any{}}}
 				}
 			}()
 			return []any{observe(&k, oracle)}
